@@ -65,6 +65,45 @@ def delIndex (l : List Item) (index : Index) : Except PyErr (List Item) :=
 def forAllItems (obj : Arg) (bad : Item → Bool) (e : PyErr) : Except PyErr Unit :=
   obj.items.bind fun xs => if xs.any bad then .error e else .ok ()
 
+/-! ### the constructor's arguments (translator tier T13b) -/
+
+/-- the `value_type` argument -/
+inductive VTArg where
+  | none                -- None (falsy)
+  | vt (t : VT)         -- one of bool, int, float, str (or a subclass of one of them)
+  | other               -- any other (truthy) object: `object`, a tuple of types, `bytes`, `complex`, an instance …
+  deriving Repr
+
+/-- the type of an item: one of the four scalar types, or some other type -/
+inductive ItemType where
+  | scalar (t : VT)
+  | other
+  deriving Repr
+
+namespace VTArg
+/-- `not value_type` -/
+def falsy : VTArg → Bool | .none => true | _ => false
+/-- `isinstance(value_type, type) and issubclass(value_type, (bool, int, float, str))` -/
+def isSupported : VTArg → Bool | .vt _ => true | _ => false
+def asItemType : VTArg → ItemType | .vt t => .scalar t | _ => .other
+def ofOption : Option VT → VTArg | some t => .vt t | Option.none => .none
+end VTArg
+
+/-- `type(x)` -/
+def typeOf : Item → ItemType | some v => .scalar v.ty | none => .other
+/-- `isinstance(x, (bool, int, float, str))` -/
+def isScalar : Item → Bool := Option.isSome
+/-- `isinstance(x, T)` for a type object; a non-scalar is an instance of its own (other) type -/
+def itemInstOfType (x : Item) : ItemType → Bool
+  | .scalar t => itemInstOf x t
+  | .other => x.isNone
+
+/-- `for index, value in enumerate(xs): <body>` where the body may rebind one variable and may raise -/
+def forEnum {σ : Type} (xs : List Item) (start : Nat) (s : σ) (f : Nat → Item → σ → Except PyErr σ) : Except PyErr σ :=
+  match xs with
+  | [] => .ok s
+  | x :: rest => (f start x s).bind fun s' => forEnum rest (start + 1) s' f
+
 /-! line protocol: the facts Python can observe about an argument object of each kind (tools/props/c18.py compares them with
     `isinstance(x, Iterable)`, `isinstance(x, str)`, `isinstance(x, T)` and `list(x)` on real objects) -/
 def parseArgKind (kind ty : String) : Option Arg :=
